@@ -188,20 +188,30 @@ def rank_agreement(ctx: Ctx, base_q: str, method: str, expected: int, why_expect
 
 # ------------------------------------------------------------------------------- initialisers
 def init_application(ctx: Ctx) -> list[Ob]:
+    """Sibling agreement between the compiled initialisers and their application sites.
+
+    A compiled initialiser that takes an axis is applied to tensors; either every site hands it the
+    tensor *with* the leading fold axis (the whole ``(F, *shape)`` tensor, a slice ``t[i : i + 1]``) and
+    the compile rule shifts non-negative axes by one, or every site hands it the un-folded slice
+    (``t[i]``) and the rule does not shift.  A mixture cannot be right: the same initialiser would
+    normalise different axes depending on whether the parameter was folded."""
     out: list[Ob] = []
-    # (1) does some compiled initialiser assume the fold axis?  (axis + 1 for non-negative axes)
     rules_mod = ctx.repo.module("cirkit.backend.torch.rules.initializers")
     shifting: list[str] = []
+    plain: list[tuple[str, str]] = []
     for f in rules_mod.functions.values():
+        shifted_here = False
         for n in ast.walk(f.node):
             if isinstance(n, ast.BinOp) and isinstance(n.op, ast.Add) and _const_int(n.right) == 1 and isinstance(n.left, ast.Attribute) and n.left.attr in ("axis", "dim"):
-                shifting.append(f.qualname)
-    if not shifting:
-        out.append(unres("R4", "cirkit.backend.torch.rules.initializers", "fold-axis-shift", "no compiled initialiser shifts its axis by the fold dimension: the rank clause has no premise"))
-        return out
-    out.append(ok("R4", shifting[0], "fold-axis-shift", "non-negative axes are shifted by one: the initialiser expects a tensor with the leading fold axis", ctx.repo.func(shifting[0]).loc))
-    # (2) application sites: a call whose callee is a parameter / loop variable / attribute named *initializer*
-    sites = 0
+                shifted_here = True
+        if shifted_here:
+            shifting.append(f.qualname)
+            continue
+        for n in ast.walk(f.node):
+            if isinstance(n, ast.keyword) and n.arg in ("dim", "axis") and isinstance(n.value, ast.Attribute) and n.value.attr in ("axis", "dim"):
+                plain.append((f.qualname, f"{f.module.relpath}:{n.value.lineno}"))
+    # application sites: a call whose callee is a parameter / loop variable / attribute named *initializer*
+    sites: list[tuple[FuncInfo, str, str, str, str]] = []  # (function, instance, loc, kind, text)
     cands: list[FuncInfo] = [f for f in ctx.repo.iter_functions() if f.module.name.startswith("cirkit.backend.torch")]
     for f in cands:
         ld = LocalDefs(f.node)
@@ -217,32 +227,45 @@ def init_application(ctx: Ctx) -> list[Ob]:
                 continue
             arg = n.args[0]
             k += 1
-            sites += 1
             inst = f"apply#{k}:{unparse(n)[:50]}"
             l = f"{f.module.relpath}:{n.lineno}"
             if isinstance(arg, ast.Subscript):
                 idx = arg.slice.elts if isinstance(arg.slice, ast.Tuple) else [arg.slice]
                 first = idx[0]
                 if isinstance(first, ast.Slice) or (isinstance(first, ast.Constant) and first.value is None) or isinstance(first, ast.Constant) and first.value is Ellipsis:
-                    out.append(ok("R4", f.qualname, inst, "the initialiser receives a slice that keeps the leading fold axis", l))
+                    kind = "keeps"
                 elif isinstance(first, ast.Name) or _const_int(first) is not None:
-                    out.append(
-                        viol(
-                            "R4",
-                            f.qualname,
-                            inst,
-                            f"the initialiser is applied to {unparse(arg)}: integer indexing drops the leading fold axis, but the compiled "
-                            f"initialisers ({shifting[0].split('.')[-1]}) shift non-negative axes by one because they expect it -- under folding a "
-                            "Dirichlet initialiser normalises the wrong axis (or raises for the last axis)",
-                            l,
-                        )
-                    )
+                    kind = "drops"
                 else:
-                    out.append(unres("R4", f.qualname, inst, f"index form {unparse(arg)} not classified", l))
+                    kind = "?"
             else:
-                out.append(ok("R4", f.qualname, inst, "the initialiser receives the whole (folded) tensor", l))
-    if sites < 2:
-        raise AnalysisError(f"floor missed: R4 found {sites} initialiser application sites, expected at least 2")
+                kind = "keeps"
+            sites.append((f, inst, l, kind, unparse(arg)))
+    if len(sites) < 2:
+        raise AnalysisError(f"floor missed: R4 found {len(sites)} initialiser application sites, expected at least 2")
+    keeps = [x for x in sites if x[3] == "keeps"]
+    drops = [x for x in sites if x[3] == "drops"]
+    if not shifting and not plain:
+        out.append(unres("R4", "cirkit.backend.torch.rules.initializers", "fold-axis-shift", "no compiled initialiser forwards an axis: the rank clause has no premise"))
+    for q in shifting:
+        out.append(ok("R4", q, "fold-axis-shift", "non-negative axes are shifted by one: the initialiser expects a tensor with the leading fold axis", ctx.repo.func(q).loc))
+    for q, l in plain:
+        if keeps:
+            out.append(viol("R4", q, "fold-axis-shift", f"the axis is forwarded unshifted although {len(keeps)} application site(s) hand the initialiser the tensor *with* the leading fold axis (e.g. {keeps[0][0].qualname}: `{keeps[0][4]}`): a non-negative axis lands one dimension too early there", l))
+        else:
+            out.append(ok("R4", q, "fold-axis-shift", "axis forwarded unshifted and every application site passes the un-folded slice", l))
+    for f, inst, l, kind, txt in sites:
+        if kind == "?":
+            out.append(unres("R4", f.qualname, inst, f"index form {txt} not classified", l))
+        elif kind == "drops" and (shifting or keeps):
+            why = (f"the compiled initialisers ({shifting[0].split('.')[-1]}) shift non-negative axes by one because they expect it" if shifting else f"other sites (e.g. {keeps[0][0].qualname}) pass the tensor with the fold axis")
+            out.append(viol("R4", f.qualname, inst, f"the initialiser is applied to {txt}: integer indexing drops the leading fold axis, but {why} -- the same initialiser normalises a different axis depending on whether the parameter was folded", l))
+        elif kind == "drops":
+            out.append(ok("R4", f.qualname, inst, "the initialiser receives the un-folded slice (and no rule shifts the axis)", l))
+        elif kind == "keeps" and plain and not shifting:
+            out.append(viol("R4", f.qualname, inst, f"the initialiser is applied to {txt}, which still has the leading fold axis, but the compile rules forward the symbolic axis unshifted: without folding a non-negative axis addresses the dimension before the intended one", l))
+        else:
+            out.append(ok("R4", f.qualname, inst, "the initialiser receives a tensor with the leading fold axis" + (" (a slice that keeps it)" if "[" in txt else ""), l))
     return out
 
 
